@@ -7,6 +7,7 @@ updated holds its previous or its new value (never missing when it existed befor
 record is untouched.
 """
 import os
+import hashlib
 import sys
 import json
 import shutil
@@ -24,6 +25,7 @@ from axolotl.sessionbuilder import SessionBuilder
 from axolotl.sessioncipher import SessionCipher
 from axolotl.state.prekeybundle import PreKeyBundle
 from axolotl.groups.senderkeyname import SenderKeyName
+from axolotl.groups.state.senderkeyrecord import SenderKeyRecord
 from axolotl.axolotladdress import AxolotlAddress
 from axolotl.groups.groupsessionbuilder import GroupSessionBuilder
 
@@ -94,9 +96,17 @@ def pool():
         n = SenderKeyName(GROUPS[0], AxolotlAddress(SENDERS[0], 0))
         GroupSessionBuilder(a).create(n)
         sender.append(a.loadSenderKey(n))
+    # records of a member who has distributed a new sender key several times (one state per distribution, the newest last)
+    from axolotl.ecc.curve import Curve as _Curve
+    for n_states in (3, 6, 8):
+        rec = SenderKeyRecord()
+        for j in range(n_states):
+            rec.addSenderKeyState(1000 * n_states + j, j, hashlib.sha256(b"chain-%d-%d" % (n_states, j)).digest(), _Curve.generateKeyPair().getPublicKey())
+        sender.append(rec)
     prekeys = KeyHelper.generatePreKeys(1, 40)
     own = KeyHelper.generateIdentityKeyPair()
     signed = [KeyHelper.generateSignedPreKey(own, i) for i in range(6)]
+    _pool.update(sender_bytes=[bytes(r.serialize()) for r in sender])
     _pool.update(ids=ids, sessions=sessions, sender=sender, prekeys=prekeys, signed=signed, bundles=bundles)
     return _pool
 
@@ -582,8 +592,11 @@ def run_case(case):
             elif kind == "store_sender_key":
                 g = GROUPS[op[1] % len(GROUPS)]
                 s = SENDERS[op[2] % len(SENDERS)]
-                rec = P["sender"][op[3] % len(P["sender"])]
-                new = bytes(rec.serialize())
+                # (a record object of its own for every call: what the store does to the object it is given stays with that call)
+                new = P["sender_bytes"][op[3] % len(P["sender_bytes"])]
+                rec = SenderKeyRecord(serialized=new)
+                if len(rec.senderKeyStates) > 1:
+                    out.label("sender_key_record_with_%d_states" % len(rec.senderKeyStates))
                 old = before.sender.get((g, s))
                 model.sender[(g, s)] = new
                 allow = ("sender", {(g, s): {new} | ({old} if old is not None else {ABSENT})})
@@ -788,6 +801,8 @@ def _enum_basic():
     yield {"sub": "script", "ops": [["save_identity", 0, 0], ["save_identity", 0, 1], ["reopen"]]}
     yield {"sub": "script", "ops": [["store_session", 0, 0], ["store_session", 0, 1], ["reopen"]]}
     yield {"sub": "script", "ops": [["store_sender_key", 0, 0, 0], ["store_sender_key", 0, 0, 1], ["reopen"]]}
+    yield {"sub": "script", "ops": [["store_sender_key", 0, 0, 4], ["reopen"], ["store_sender_key", 0, 0, 5], ["store_sender_key", 1, 0, 3], ["reopen"],
+                                    ["store_sender_key", 0, 0, 4], ["reopen"]]}
     yield {"sub": "script", "ops": [["store_session", 0, 0], ["store_session_other_device", 0, 1], ["reopen"], ["store_session", 1, 2],
                                     ["store_session_other_device", 1, 0]]}
     yield {"sub": "script", "ops": [["store_prekey"], ["store_prekey"], ["set_sent", [0]], ["reopen"], ["remove_prekey", 0], ["reopen"]]}
@@ -865,3 +880,4 @@ def plan(tier):
 
 RULE += (' Also: session replacement through AxolotlManager.create_session (accepted and refused key bundles); orderly termination (SIGTERM handled with sys.exit) after the k-th statement of an update run in a child process; own identity key pairs whose public key begins with 0x05 / 0x00 / 0xff.')
 RULE += (" Also: histories on a store whose very first open (creation) was cut short by process death after its k-th statement (k = 1..12 enumerated, generated histories).")
+RULE += (" Sender key records include ones with 3, 6 and 8 key states (a member who re-keyed that often).")
